@@ -3,8 +3,6 @@ package props
 import (
 	"bytes"
 	"context"
-	"encoding/base64"
-	"encoding/json"
 	"errors"
 	"fmt"
 	"slices"
@@ -361,8 +359,12 @@ func c15writes(env *core.Env, faulty bool) {
 	}
 	plans := [2]*reg.FaultPlan{}
 	plans[badMember] = plan
-	m0 := reg.Wrap(mems[0], trackers[0], plans[0])
-	m1 := reg.Wrap(mems[1], trackers[1], plans[1])
+	// (the members' own upload ids are noted as the members hand them out, so that the
+	// harness can look at a session in each member without taking the unifier's id apart)
+	spies := [2]*uploadSpy{{Interface: mems[0]}, {Interface: mems[1]}}
+	memberIDs := map[string][2]string{} // unifier's upload id -> the members' ids
+	m0 := reg.Wrap(spies[0], trackers[0], plans[0])
+	m1 := reg.Wrap(spies[1], trackers[1], plans[1])
 	pol := ociunify.ReadSequential
 	if c.Bool("concurrent", 1, 2) {
 		pol = ociunify.ReadConcurrent
@@ -371,6 +373,7 @@ func c15writes(env *core.Env, faulty bool) {
 	u := un
 	m := reg.NewModel(immutable)
 	m.StrictCodes = false
+	m.ReferrersOrdered = true // "listings are the sorted duplicate-free union"
 	cfg := reg.GenConfig{Repos: pickSome(c, "repos", repoNames, 1, 2), Tags: pickSome(c, "tags", tagNames, 1, 2), MaxBlob: 60, Weights: reg.DefaultWeights(), Uploads: true, BadPush: true, HTTPSafe: true}
 	w := &cfg.Weights
 	w[reg.PushBlob], w[reg.PushManifest], w[reg.MountBlob], w[reg.DeleteBlob], w[reg.DeleteManifest], w[reg.DeleteTag] = 14, 14, 6, 5, 5, 5
@@ -387,7 +390,14 @@ func c15writes(env *core.Env, faulty bool) {
 		op := g.Next()
 		failedBefore := failed
 		pendingBad = false
+		started := [2]int{spies[0].count(), spies[1].count()}
 		res := reg.Exec(ctx, u, op, h)
+		if op.Kind == reg.UpStart && res.Err == nil {
+			a, b := spies[0].between(started[0], -1, op.Repo), spies[1].between(started[1], -1, op.Repo)
+			if len(a) == 1 && len(b) == 1 {
+				memberIDs[h.ID[op.Handle]] = [2]string{a[0], b[0]}
+			}
+		}
 		if pendingBad && (op.Kind == reg.UpStart || op.Kind == reg.UpResume) {
 			badHandle[op.Handle] = true
 		}
@@ -421,8 +431,7 @@ func c15writes(env *core.Env, faulty bool) {
 		if !failedBefore && op.Kind == reg.UpWrite && res.Err != nil {
 			if u := m.Uploads[op.Handle]; u != nil {
 				if w2, err := u2resume(ctx, u.Repo, h.ID[op.Handle], un); err == nil {
-					ids := unifyMemberIDs(h.ID[op.Handle])
-					if len(ids) == 2 {
+					if ids, ok := memberIDs[h.ID[op.Handle]]; ok {
 						var sizes [2]int64
 						for mi := 0; mi < 2; mi++ {
 							if mw, err := mems[mi].PushBlobChunkedResume(ctx, u.Repo, ids[mi], -1, 0); err == nil {
@@ -551,17 +560,4 @@ func membersDiffer(ctx context.Context, mems [2]*ocimem.Registry, m *reg.Model) 
 
 func u2resume(ctx context.Context, repo, id string, u ociregistry.Interface) (ociregistry.BlobWriter, error) {
 	return u.PushBlobChunkedResume(ctx, repo, id, -1, 0)
-}
-
-// unifyMemberIDs decodes ociunify's composite upload id.
-func unifyMemberIDs(id string) []string {
-	b, err := base64.RawURLEncoding.DecodeString(id)
-	if err != nil {
-		return nil
-	}
-	var ids []string
-	if json.Unmarshal(b, &ids) != nil {
-		return nil
-	}
-	return ids
 }
